@@ -190,6 +190,10 @@ def _expr(s: dict, prog: dict) -> List[str]:
     op = s["op"]
     i = s.get("i")
     h = prog["h"]
+    if op == "linear" and s.get("post") and not s.get("_inner"):
+        # an in-place activation applied to the fresh linear output (nn.ReLU(inplace=True) after a layer); the pre-activation value
+        # is not visible to the rest of the program
+        return _expr(dict(s, _inner=True), prog) + [f"{o} = torch.relu_({o})"]
     if op == "linear":
         x = s["x"]
         sp = s["spell"]
@@ -693,6 +697,8 @@ def evaluate(prog: dict, P: Dict[str, torch.Tensor], inputs: Dict[str, torch.Ten
             else:
                 w, b = P[f"w{i}"], (P[f"b{i}"] if s["bias"] else None)
             v = mode.linear(s, env[s["x"]], w, b)
+            if s.get("post") == "relu_":
+                v = torch.relu(v)
         elif op == "ulinear":
             v = mode.ulinear(s, env[s["x"]], P[f"w{i}"], P[f"b{i}"] if s["bias"] else None)
         elif op == "sdpa":
@@ -811,7 +817,8 @@ class _Builder:
         if k == "linear":
             sp = d(st.sampled_from(self.allow["linear_spells"]))
             bias = False if sp in ("nobias", "kwweight") else d(st.booleans())
-            return self.emit(op="linear", x=x, i=self.idx(), bias=bias, spell=sp)
+            post = "relu_" if ("inplace" in self.allow["extra"] and d(st.integers(0, 5)) == 0) else None
+            return self.emit(op="linear", x=x, i=self.idx(), bias=bias, spell=sp, **({"post": post} if post else {}))
         if k == "ulinear":
             return self.emit(op="ulinear", x=x, i=self.idx(), bias=d(st.booleans()), readout=d(st.integers(0, 3)) == 0,
                              constraint=d(st.sampled_from(["default", None, "gmean"])), cspell=d(st.sampled_from(["kw", "pos"])))
@@ -880,7 +887,7 @@ class _Builder:
         if spell == "iadd":
             # `t = branch; t += skip` - the in-place target must be a freshly computed tensor that no backward
             # formula needs (a linear output), otherwise the *original* program is not valid eager PyTorch
-            if self.stmts and self.stmts[-1]["out"] == br and self.stmts[-1]["op"] == "linear":
+            if self.stmts and self.stmts[-1]["out"] == br and self.stmts[-1]["op"] == "linear" and not self.stmts[-1].get("post"):
                 return self.emit(op="add", a=br, b=x, spell="iadd")
             spell = "plus"
         a, b = (x, br) if order == "skip+branch" else (br, x)
@@ -921,7 +928,7 @@ class _Builder:
             if spell == "iadd":
                 spell = "plus"
             self.uses_x2 = True
-        if spell == "iadd" and not (self.stmts and any(s_["out"] == a and s_["op"] == "linear" for s_ in self.stmts)):
+        if spell == "iadd" and not (self.stmts and any(s_["out"] == a and s_["op"] == "linear" and not s_.get("post") for s_ in self.stmts)):
             spell = "plus"  # in-place only on a fresh linear output (no backward formula needs it)
         return self.emit(op="add", a=a, b=b, spell=spell)
 
@@ -934,7 +941,7 @@ ALLOW_UNIT = dict(
     shape=["flat", "transpose2", "slice_cat", "rotate_half"],
     add_spells=["plus", "plus", "torch.add", "iadd"],
     plain_add=["fork", "param", "x2"],
-    extra=[],
+    extra=["inplace"],
 )
 KINDS_UNIT = ["linear", "linear", "seq", "mlp2", "ew", "ew", "ew", "sdpa", "shape", "matmul", "conv1d", "scalar_add", "gate"]
 
@@ -990,7 +997,7 @@ ALLOW_QUANT = dict(
     shape=["flat", "transpose2", "slice_cat", "rotate_half"],
     add_spells=["plus", "torch.add", "iadd"],
     plain_add=["fork", "param", "x2"],
-    extra=["usdpa"],
+    extra=["usdpa", "inplace"],
 )
 KINDS_QUANT = ["linear", "linear", "linear", "seq", "mlp2", "umlp2", "ulinear", "sdpa", "sdpa", "ew", "ew", "shape", "gate"]
 
@@ -1072,7 +1079,7 @@ ALLOW_TRACK = dict(
     shape=["flat", "transpose2", "slice_cat", "rotate_half", "stack_sum", "mul1", "index", "view"],
     add_spells=["plus", "torch.add"],
     plain_add=["fork", "fork", "param", "x2"],
-    extra=[],
+    extra=["inplace"],
 )
 KINDS_TRACK = ["linear", "seq", "mlp2", "ew", "ew", "shape", "shape", "shape", "sdpa", "matmul", "intop", "scalar_add", "gate"]
 
@@ -1204,6 +1211,8 @@ def to_fx(prog: dict):
                     env[o] = cf(F.linear, (), {"input": x, "weight": w, "bias": b})
                 else:
                     env[o] = cf(F.linear, (x, w, b))
+            if s.get("post") == "relu_":
+                env[o] = cf(torch.relu_, (env[o],))
         elif op == "ulinear":
             fn = U.linear_readout if s.get("readout") else U.linear
             x, w, b = env[s["x"]], ph[f"w{i}"], (ph[f"b{i}"] if s["bias"] else None)
